@@ -8,6 +8,7 @@ pub mod refcobs;
 pub mod refcodec;
 pub mod refcrc;
 pub mod runner;
+pub mod schematree;
 pub mod props;
 
 #[global_allocator]
